@@ -204,8 +204,18 @@ let () =
                 | "abfshared" -> fst (abfshared_validate rof e)
                 | "alb" -> fst (alb_validate n e)
                 | "kmoving" -> fst (kmoving_validate rof e)
-                | _ -> { x_err = true; x_bug = true; x_mem = true }) in
-            print_endline (if not x.x_err then "ok" else "input" ^ (if x.x_bug then ",bug" else "") ^ (if x.x_mem then ",memory" else ""))
+                | "opessn" -> fst (opes_sigma_nlist_validate n e)
+                | "rmsd" ->
+                  let nat_opt k = let v = get k in if v = "-" then None else Some (nat_of_int (int_of_string v)) in
+                  let file = (match get "file" with "-" -> None | "missing" -> Some (false, O) | v -> Some (true, nat_of_int (int_of_string v))) in
+                  fst (rmsd_validate (nat_of_int (int_of_string (get "g"))) (nat_opt "inline") file)
+                | "ebmeta" ->
+                  let file = (match get "vals" with "-" -> None
+                                                   | v -> Some (List.map (fun w -> match parse_real (tok_of_text w) with QVal q -> q | _ -> { qnum = Z0; qden = XH })
+                                                                  (List.filter (fun w -> w <> "") (String.split_on_char ',' v)))) in
+                  fst (ebmeta_validate (get "expand" = "1") file e)
+                | _ -> { x_err = true; x_bug = true; x_mem = true; x_file = true }) in
+            print_endline (if not x.x_err then "ok" else "input" ^ (if x.x_file then ",file" else "") ^ (if x.x_bug then ",bug" else "") ^ (if x.x_mem then ",memory" else ""))
           | "session" ->
             (* have_cv=.. have_bias=n:t,.. cfgs=<cfg>|<cfg>|RESET|...  with <cfg> = cvs/biases,
                cvs = name:fails:walls,...  (walls 1 = the variable queues a harmonicWalls block "<name>w"),
